@@ -674,7 +674,7 @@ class Interp:
             if isinstance(e.func, ast.Name) and e.func.id == "isinstance" and len(e.args) == 2 and "isinstance" not in fr["locals"]:
                 return [(s2, Const(t) if o is None else None, o) for s2, t, o in self.eval_cond(e, st)]
             return self.eval_call(e, st)
-        if isinstance(e, (ast.BoolOp, ast.Compare, ast.UnaryOp)) and self.is_boolish(e):
+        if isinstance(e, (ast.BoolOp, ast.Compare, ast.UnaryOp)) and self.is_boolish(e, self.m.functions[fr["func"]].module):
             out = []
             for s2, truth, o in self.eval_cond(e, st):
                 out.append((s2, Const(truth) if o is None else None, o))
@@ -755,11 +755,20 @@ class Interp:
             cur = nx
         return [(s2, build(vs) if o is None else None, o) for s2, vs, o in cur]
 
-    def is_boolish(self, e: ast.expr) -> bool:
+    def is_boolish(self, e: ast.expr, module: Optional[str] = None) -> bool:
         if isinstance(e, ast.BoolOp):
-            return all(self.is_boolish(v) or isinstance(v, (ast.Call, ast.Name, ast.Attribute)) for v in e.values) and any(self.is_boolish(v) for v in e.values)
+            return all(self.is_boolish(v, module) or isinstance(v, (ast.Call, ast.Name, ast.Attribute)) for v in e.values) and any(self.is_boolish(v, module) for v in e.values)
         if isinstance(e, ast.UnaryOp):
             return isinstance(e.op, ast.Not)
+        if isinstance(e, ast.Call) and isinstance(e.func, ast.Name):
+            if e.func.id == "isinstance":
+                return True
+            # a package predicate annotated `-> bool`
+            for mod in ([module] if module else [SESSION_MOD]):
+                q = self.m.resolve_name(mod, e.func.id)
+                fi = self.m.functions.get(q) if q else None
+                if fi is not None and not isinstance(fi.node, ast.Lambda) and fi.node.returns is not None and norm(fi.node.returns) == "bool":
+                    return True
         return isinstance(e, ast.Compare)
 
     def global_name(self, name: str, st: PState) -> Any:
@@ -915,8 +924,19 @@ class Interp:
                 fi = self.m.functions[q]
                 if fi.module == SESSION_MOD:
                     return self._inline(fi, None, pos, kws, st)
-                ret = Unknown("incoming_msg" if q.endswith("unpack_ldap_message") else "ret")
-                return self.external_call(q, ret, st, e)
+                if q.endswith("._messages.unpack_ldap_message"):
+                    return self.external_call(q, Unknown("incoming_msg"), st, e)
+                # a private helper of another package module (a moved decode loop, an options factory): interpreted like
+                # a session-module function when the interpreter supports its body, an opaque external call otherwise
+                if fi.cls is None and fi.module != "sansldap.asn1" and not isinstance(fi.node, ast.Lambda):
+                    trial = st.clone()
+                    try:
+                        return self._inline(fi, None, pos, kws, trial)
+                    except TooManyPaths:
+                        raise
+                    except AnalysisError:
+                        pass
+                return self.external_call(q, Unknown("ret"), st, e)
             if fv.why.startswith("global:"):
                 nm = fv.why[7:].split(".")[-1]
                 return self.builtin_call(nm, pos, kws, st, e)
